@@ -5,7 +5,7 @@ import os
 import sys
 import traceback
 
-from .loader import World, AnalysisError, ImportRaises
+from .loader import World, AnalysisError, Decided
 from .report import Ctx, finish
 
 PROPS = {  # id -> (module, level)
@@ -49,10 +49,13 @@ def run_one(pid, tier, only=None):
             from . import selftest
             rc = selftest.sensitivity(pid, ctx)
         return rc
-    except ImportRaises as e:
-        # the package cannot be imported: whatever the property promises, no call can deliver it
+    except Decided as e:
+        # e.g. the package cannot be imported: whatever the property promises, no call can deliver it
+        if e.applies is not None and pid not in e.applies:
+            print("ANALYSIS-ERROR property=%s %s" % (pid, e))
+            return 2
         ctx.min_obligations = 0
-        ctx.ob("IMPORT", "import spake2", False, "the package cannot be imported - %s" % e, e.site)
+        ctx.ob(e.rule, e.instance, False, str(e), e.site)
         return finish(ctx, seed=int(os.environ.get("VERIF_SEED", "0") or 0))
     except AnalysisError as e:
         print("ANALYSIS-ERROR property=%s %s" % (pid, e))
